@@ -205,6 +205,15 @@ func init() {
 	// s.match_list: Args = [l]. A list is empty (:match_nil) or has a head and a tail (:match_cons), never both.
 	laws["s.match_list"] = func(e *env) {
 		l := e.c.Args[0]
+		if len(e.c.Args) > 1 && e.b.cheap() {
+			// a value that is not a list (a number, a string, a name, an empty map or struct, a pair ...) is not the
+			// empty list: :match_nil must not hold for it (an error is as good as "does not hold")
+			other := e.c.Args[1]
+			if got, err := e.b.pred(":match_nil", in(other)); err == nil && len(got) > 0 {
+				e.failf(":match_nil(%s) holds although the value is not a list", other.Source())
+			}
+			e.class("match_nil-on-non-list")
+		}
 		e.wantHolds(len(l.E) == 0, ":match_nil", in(l))
 		if len(l.E) == 0 {
 			e.wantSols(":match_cons", nil, in(l), nil, nil)
